@@ -50,6 +50,7 @@ type rewriter struct {
 	doMap    bool
 	doGo     bool
 	doFs     bool
+	doPid    bool
 	n        int
 	changed  bool
 	relFile  string
@@ -280,6 +281,13 @@ func (r *rewriter) exprs(n ast.Node) {
 				return false
 			}
 		case *ast.CallExpr:
+			if r.doPid {
+				if sel, ok := x.Fun.(*ast.SelectorExpr); ok && sel.Sel.Name == "Getpid" && r.isPkg(sel.X, "os") {
+					x.Fun = &ast.SelectorExpr{X: ident("vshim"), Sel: ident("Getpid")}
+					r.changed = true
+					r.counts["pid"]++
+				}
+			}
 			if r.doFs {
 				if sel, ok := x.Fun.(*ast.SelectorExpr); ok {
 					if to, ok := fsFuncs[sel.Sel.Name]; ok && (r.isPkg(sel.X, "os") ||
@@ -383,7 +391,7 @@ func main() {
 			}
 			rel, _ := filepath.Rel(*repo, fname)
 			r := &rewriter{fset: p.Fset, info: p.TypesInfo, pkg: p,
-				doMap: want["map"], doGo: want["go"], doFs: want["fs"],
+				doMap: want["map"], doGo: want["go"], doFs: want["fs"], doPid: want["pid"],
 				relFile: rel, counts: map[string]int{}}
 			func() {
 				defer func() {
